@@ -59,7 +59,10 @@ class Ctx:
         counts = {}
         for i in self.instances:
             counts[i['rule']] = counts.get(i['rule'], 0) + 1
+        failing = {f['rule'] for f in self.findings}
         for rid, (n, what) in self.floors.items():
+            if rid in failing:
+                continue        # the rule already reports a construct; a finding can cut its later instances short
             if counts.get(rid, 0) < n:
                 raise AnalysisError(
                     'rule %s matched %d instance(s), fewer than the %d confirmed by hand (%s); '
